@@ -1,9 +1,10 @@
 -------------------------------- MODULE MC_Daser ------------------------------
 EXTENDS Daser, TLC
-CONSTANTS N, W
+CONSTANTS N, W, MaxNow
 Next ==
     \/ \E h \in 1..N : Insert(h, W) \/ RemoveH(h) \/ WantToPrune(h)
     \/ Connect \/ Disconnect
+    \/ (now < MaxNow /\ Tick)
     \/ \E v \in {0, 2, N} : SetHiPrunable(v)
     \/ \E v \in {0, Threshold} : SetNumPrunable(v)
     \/ \E h \in 1..N : \E sh \in SUBSET AllShares(W) : Schedule(h, sh)
